@@ -36,7 +36,7 @@ Next ==
             /\ st' = [c |-> C!CInit(nsc), q |-> Q!QInit(nsc), p |-> P!PInit(nsc)]
             /\ nviol' = nviol
        ELSE LET rb == Q!AnyBlocked(st.q)
-                rc == C!CStep(st.c, sc, e, rb)
+                rc == C!CStep(st.c, sc, e, rb, st.p.dropped)
                 rq == Q!QStep(st.q, sc, e)
                 rp == P!PStep(st.p, sc, e, st.c)
                 vs == rc.v \o rq.v \o rp.v
